@@ -28,10 +28,17 @@ for pid in ids:
         continue
     reason = src["not_applicable"].get(pid, "not yet brought under contract in this build; see DESIGN.md")
     na.append({"property_id": pid, "reason": reason})
+import subprocess
+hooks = dict(src["hooks"])
+try:
+    log = subprocess.run(["git", "-C", "/repo", "log", "--format=%H %s"], capture_output=True, text=True).stdout.splitlines()
+    hooks["source_commits"] = [l.split()[0] for l in reversed(log) if l.split(" ", 1)[1].startswith("verif")]
+except Exception:
+    pass
 m = {
     "version": 1,
     "setup_cmd": "cd /verif/vc && GOFLAGS=-mod=vendor GOPROXY=off GOSUMDB=off GOTOOLCHAIN=local go build -o /verif/bin/govc .",
-    "hooks": src["hooks"],
+    "hooks": hooks,
     "engines": [{"name": "govc", "path": "/verif/vc", "serves_properties": sorted(claimed),
                  "kind_free_text": "self-written verification-condition generator for Go (go/packages + go/ssa), contracts as //@ comments in build-tagged files, obligations discharged by z3 4.8.12 / z3 5.1.0 / cvc5 1.0; bounded stand-ins via go test -overlay"}],
     "checks": checks,
